@@ -10,4 +10,6 @@ def handleC01 (j : Json) : Except String Verdict := do
   | some (sig, d) => return .specfalse sig d
   | none => return compareModel c false
 
-def main : IO Unit := runDriver handleC01
+def main : IO Unit := runDriver fun j => match handleC01 j with
+  | .ok v => .ok (sanitize v)
+  | .error e => .error (oneLine e)
